@@ -47,6 +47,7 @@ def run(rep, tier, seed, replay=None):
     # C01_real_equals_exact_when_no_lossy_hit_partial transfers the exact-key theorems) and how many of those differ from the exact run
     from . import _blockreal
     _blockreal.real_tree_k(rep, 'C01', binp, seed + 101, 300 if tier == 'quick' else 3000)
+    _blockreal.lossy_witness(rep, binp)
     # ---- search
     n = 600 if tier == 'quick' and not rep.broken else 6000
     if replay:
